@@ -368,8 +368,36 @@ def _mem_arg(ctx):
     return m[0], (b[0] if b else None)
 
 
+def _bool_load(aligned):
+    """batch_bool loaded from an array of bool: lane i is true iff mem[i]; exactly size bytes are read"""
+    def build(ctx):
+        R = ctx.ret = bind_ret(ctx, "M")
+        mem = [a for a in ctx.args if a.kind == "P"][0]
+        ctx.mem_bytes = {mem.cname: ctx.n}
+        ctx.requires.append("__CPROVER_r_ok(%s, %d)" % (mem.scalar, ctx.n))
+        ctx.requires += conj(["%s[%d] <= 1" % (mem.scalar, i) for i in range(ctx.n)])      # object representation of bool
+        if aligned:
+            ctx.requires.append("((u64)%s %% %d) == 0" % (mem.scalar, ARCHS[ctx.aid][1] // 8))
+        ctx.ensures += conj([R.is_true_iff(i, "%s[%d] != 0" % (mem.scalar, i)) for i in range(ctx.n)])
+        ctx.ensures += conj(R.wf())
+    return build
+
+
+def _bool_store(ctx):
+    """exact inverse: mem[i] = lane i ? 1 : 0, exactly size bytes written"""
+    mem = [a for a in ctx.args if a.kind == "P"][0]
+    m = [a for a in ctx.args if a.kind == "M"][0]
+    ctx.mem_bytes = {mem.cname: ctx.n}
+    ctx.requires.append("__CPROVER_w_ok(%s, %d)" % (mem.scalar, ctx.n))
+    ctx.requires += conj(m.wf())
+    ctx.ensures += conj(["(%s[%d] == (%s ? 1 : 0))" % (mem.scalar, i, m.truth(i)) for i in range(ctx.n)])
+    ctx.assigns.append("__CPROVER_object_upto(%s, %d)" % (mem.scalar, ctx.n))
+
+
 def _load(aligned):
     def build(ctx):
+        if ctx.fn.cls_type is not None and ctx.fn.cls_type.kind == "bool":
+            return _bool_load(aligned)(ctx)
         R = ctx.ret = bind_ret(ctx, "B")
         mem, _ = _mem_arg(ctx)
         nbytes = ctx.n * ctx.w // 8
@@ -395,6 +423,10 @@ def _store(aligned):
     return build
 
 
+row("load_aligned", "PM", "M", prop="C04")(_bool_load(True))
+row("load_unaligned", "PM", "M", prop="C04")(_bool_load(False))
+for _o in ("store", "store_aligned", "store_unaligned"):
+    row(_o, "MP", "V", prop="C04")(_bool_store)
 row("load_aligned", "P", "B", prop="C04")(_load(True))
 row("load_unaligned", "P", "B", prop="C04")(_load(False))
 for _k in ("PB", "BP"):
